@@ -24,4 +24,29 @@ def replay_case(job):
     return {"violated": bool(r and not r.get("ok")), "detail": (r or {}).get("detail", "")}
 
 
+def ground_twos_complement(job):
+    """_twos_complement(v, base) for negative v: the numeral, read in its base, is 2**w + v where w = max(32, bits needed for |v| + sign) -
+    checked on every v in [-70000, -1], and around every power of two up to 2**52 (sampled, bounded: labelled so in the evidence)"""
+    from numbers_parser.cell import _twos_complement
+    vals = list(range(-70000, 0))
+    for k in range(8, 53):
+        vals += [-(2 ** k) + d for d in (-2, -1, 0, 1, 2)] + [-(2 ** k + 2 ** (k - 1))]
+    n = 0
+    for v in vals:
+        if v >= 0:
+            continue
+        need = (-v - 1).bit_length() + 1          # bits of the two's-complement representation of v
+        for base in (2, 8, 16):
+            n += 1
+            try:
+                text = _twos_complement(v, base)
+                got = int(text, base)
+            except Exception as e:  # noqa: BLE001
+                return {"violated": True, "detail": f"_twos_complement({v}, {base}) raised {type(e).__name__}: {e}", "count": n}
+            ok = any(got == 2 ** w + v for w in (max(32, need), max(32, need + 1)))  # one spare sign bit is still the same number
+            if not ok:
+                return {"violated": True, "detail": f"_twos_complement({v}, {base}) = {text!r}, which reads as {got}; two's complement of {v} in {max(32, need)} bits is {2 ** max(32, need) + v}", "count": n}
+    return {"violated": False, "detail": f"{n} (value, base) pairs: every v in [-70000,-1] and 6 values around each power of two up to 2**52 (sampled)", "count": n}
+
+
 NATIVE = {}
